@@ -557,7 +557,7 @@ def explore(ctx, rs, om, buckets, sc, dist, cases, samples, max_cuts, two_cases,
 # levels at its own positions and resumed with --load after the OTHER sessions were interrupted.  Every session on its own
 # must emit the uninterrupted run: the restored part of each resumed run is the remainder of ITS interrupted level.
 
-NAMED_RULESETS = (10, 80)       # quick, thorough
+NAMED_RULESETS = (10, 60)       # quick, thorough
 NAME_STEMS = ["night", "run", "crack", "rockyou", "s", "ab", "my.list", "Wörter"]
 
 
@@ -814,7 +814,7 @@ def gen_named_ruleset(rng, idx):
 def named_sessions(ctx, dist, samples):
     """The stage: rulesets x name families x interleaved histories, each history in its own scratch copy of the code tree."""
     vio, evaluations, nontrivial = [], 0, 0
-    nrs, nhist = ctx.scale(*NAMED_RULESETS), ctx.scale(4, 8)
+    nrs, nhist = ctx.scale(*NAMED_RULESETS), ctx.scale(4, 6)
     probe = common.scratch()
     pre = common.scratch()
     tries, jobs = 0, []
